@@ -155,7 +155,15 @@ func runCheck(e *Engine, args []string, tier string, timeout int, verif string) 
 		}
 		return false
 	}
-	rr := e.verifyFuncs(fns, opts, func(ob *Obligation) bool { return hasProp(ob.Props, prop) || ob.Kind == "cover" })
+	// Loop invariants are assumed at loop heads by every other obligation of the function. Invariants tagged
+	// with the property are always part of its check; the untagged ones (function-wide safety invariants) are
+	// checked by the C10 quick check on every change and, in the thorough tier, by every property's own check.
+	rr := e.verifyFuncs(fns, opts, func(ob *Obligation) bool {
+		if hasProp(ob.Props, prop) || ob.Kind == "cover" {
+			return true
+		}
+		return tier == "thorough" && (ob.Kind == "inv-init" || ob.Kind == "inv-pres")
+	})
 	if len(e.errors) > 0 {
 		for _, m := range e.errors {
 			fmt.Println("ENGINE-ERROR:", m)
